@@ -58,6 +58,12 @@ signvecs = z3.Function('signvecs', Int, CSeq)     # itertools.product([1,-1], re
 sprod = z3.Function('sprod', ISeq, Int)           # product of the entries
 smul = z3.Function('smul', ISeq, ISeq, ISeq)      # [l*s for l,s in zip(lits, signs)]
 pfilter = z3.Function('pfilter', ISeq, Int, Int, CSeq)  # [smul(l,s) for s in signvecs(len l)[:t] if sprod(s)==d]
+Str = z3.DeclareSort('Str')            # opaque text (content not modelled): only length and character codes
+slen = z3.Function('slen', Str, Int)
+charat = z3.Function('charat', Str, Int, Int)
+SSeq = z3.DeclareSort('SSeq')          # sequence of opaque texts (lines, tokens)
+sslen = z3.Function('sslen', SSeq, Int)
+ssget = z3.Function('ssget', SSeq, Int, Str)
 isperm = z3.Function('isperm', z3.ArraySort(Int, Int), Int, Int, Bool)      # A[0..n) is a permutation of base..base+n-1
 sortedperm = z3.Function('sortedperm', z3.ArraySort(Int, Int), z3.ArraySort(Int, Int), Int, Bool)  # T[0..n) = sorted(A[0..n))
 invperm = z3.Function('invperm', z3.ArraySort(Int, Int), Int, z3.ArraySort(Int, Int))   # inverse of a permutation of 0..n-1
@@ -170,6 +176,16 @@ def _lct(a, s):
 def _lbasic(s):
     return [z3.Implies(ilen(s) == 0, s == inil), z3.Implies(haszero(s), ilen(s) > 0), maxabs(s) >= 0,
             z3.Implies(ilen(s) > 0, maxabs(s) == zmax(maxof(s), -minof(s)))]
+
+
+@lemma('str_basic', 'trivial: lengths are non negative', [Str])
+def _lstr(x):
+    return [slen(x) >= 0]
+
+
+@lemma('sseq_basic', 'trivial', [SSeq])
+def _lsseq(x):
+    return [sslen(x) >= 0]
 
 
 @lemma('tseq_basic', 'Opb.lean: tlen_nonneg, tmaxabs_nonneg, tnonneg_def', [TSeq])
@@ -463,7 +479,7 @@ def _sem_on_terms(asgs, terms_by_decl):
 def _collect(exprs):
     """ground terms by sort and applications by declaration name"""
     seen = set()
-    by_sort = {'Asg': [], 'ISeq': [], 'CSeq': [], 'TSeq': [], 'OSeq': [], 'Con': []}
+    by_sort = {'Asg': [], 'ISeq': [], 'CSeq': [], 'TSeq': [], 'OSeq': [], 'Con': [], 'Str': [], 'SSeq': []}
     by_decl = {}
     stack = list(exprs)
     while stack:
